@@ -17,11 +17,13 @@ pub fn run(tier: Tier) -> i32 {
             id: "C08",
             rule: "extension-forest profile of the supported-subset grammar: most complex types and anonymous-typed elements extend an earlier-ranked complex type (chains of depth 1-4+, fan-out), the base declared before or after the derived type (document order is permuted), in the same file or in an imported file of another namespace, with own content empty / sequence / nested sequence / choice / attributes and bases that carry attributes. Oracle on every derived struct: syn member-by-member comparison with the reference mapping (base members first in their order, elements and attributes, then the extension's elements, then its attributes), the typed driver (rustc) on a complete literal, and the yaserde prefix of every element member must be bound to the namespace of the schema that declared it. Non-trivial: derivation depth >= 2, or a base in another file, or a base declared after the derived type, or attributes in the extension; distinct by rendered file set.",
             salt: "C08",
-            n_quick: 200,
-            n_thorough: 3000,
+            n_quick: 400,
+            n_thorough: 5000,
             tune: &|p: &mut Profile| {
                 p.wsdl = 0;
                 p.ext_bias = true;
+                p.kind_mix = true;
+                p.xml_lang = 1;
                 p.colliding_abbrev = true;
             },
             only: Some(&derived),
